@@ -167,7 +167,7 @@ def gen(rng, tier, index):
         if r < 0.55:
             ops.append({"op": "accept", "len": float(10.0 ** rng.uniform(-3, 1))})
         elif r < 0.8:
-            ops.append({"op": "reject", "how": str(choice(rng, ["negative", "subthreshold", "zero_step", "same_point_other_grad", "zero_y"]))})
+            ops.append({"op": "reject", "how": str(choice(rng, ["negative", "subthreshold", "zero_step", "same_point_other_grad", "zero_y", "nan_gradient", "inf_minus_inf", "forced_rebuild"]))})
         elif r < 0.9:
             ops.append({"op": "reset"})
         else:
@@ -261,13 +261,28 @@ def execute_model(plan, stats, keys, viol):
                     xk, gk = xl.copy(), gl.copy()
                 elif how == "same_point_other_grad":
                     xk, gk = xl.copy(), gl + A @ s
+                elif how == "nan_gradient":
+                    # a candidate with a non-finite gradient fails the curvature test (NaN > t is False)
+                    xk, gk = xl + s, gl + A @ s
+                    gk[int(rng.integers(0, n))] = np.nan
+                elif how == "inf_minus_inf":
+                    xk, gk = xl + s, gl + A @ s
+                    gk[0] = np.inf if s[0] >= 0 else -np.inf
+                    if n > 1:
+                        gk[1] = -np.inf if s[1] >= 0 else np.inf
+                elif how == "forced_rebuild":
+                    # a rejected candidate handed over with is_force_update=True: the history must stay
+                    # as it is and the matrices must (still) be those of the stored pairs
+                    xk, gk = xl + s, gl - A @ s
                 else:  # zero_y
                     xk, gk = xl + s, gl.copy()
             # model decision with the documented rule
             sk = xk - mX[-1]
             yk = gk - mG[-1]
-            sty, yty = float(sk.dot(yk)), float(yk.dot(yk))
-            model_accepts = sty > eps * yty
+            with np.errstate(all="ignore"):
+                sty, yty = float(sk.dot(yk)), float(yk.dot(yk))
+            model_accepts = bool(sty > eps * yty)
+            force = kind == "reject" and op.get("how") == "forced_rebuild" and len(mX) > 1
             if abs(sty - eps * yty) <= 1e-9 * max(abs(sty), abs(eps * yty)) and sty != 0:
                 stats["nj.knife_edge"] += 1
                 return
@@ -276,7 +291,7 @@ def execute_model(plan, stats, keys, viol):
                 return
             pre = mats_fingerprint(X, G, mats)
             try:
-                mats2 = _main.update_lbfgs_matrices(xk.copy(), gk.copy(), X, G, maxcor, mats, False, eps)
+                mats2 = _main.update_lbfgs_matrices(xk.copy(), gk.copy(), X, G, maxcor, mats, force, eps)
             except (np.linalg.LinAlgError, ValueError, FloatingPointError, ZeroDivisionError) as e:
                 ang = float(np.linalg.norm(sk) * np.linalg.norm(yk) / sty) if sty > 0 else np.inf
                 if not model_accepts or ang <= 1e4:
@@ -295,7 +310,12 @@ def execute_model(plan, stats, keys, viol):
             else:
                 stats["probe.rejected"] += 1
                 stats["fault.rejected_update." + (op.get("how") or "natural")] += 1
-                if mats2 is not mats or mats_fingerprint(X, G, mats2) != pre:
+                if force:
+                    stats["probe.forced_rebuild_with_rejected_candidate"] += 1
+                    if len(X) != len(mX) or any(a.tobytes() != b.tobytes() for a, b in zip(X, mX)):
+                        add("rejected_update_touched_memory", {"forced": True}, i)
+                        return
+                elif mats2 is not mats or mats_fingerprint(X, G, mats2) != pre:
                     add("rejected_update_touched_memory", {}, i)
                     return
             mats = mats2
